@@ -1317,3 +1317,91 @@ def r_stalevar(db, rep):
                                      "run zero times: on that path the value left by the previous iteration of the loop at line %s (or by the code "
                                      "before it) decides what is done for this item" % (f.qn, v, u.get("l"), I.get("l"), L.get("l")), f.qn)
                             break
+
+
+# ---------------------------------------------------------------------------------------------------
+@rule("R-CURSORFILL", 4, "a byte array that is saved up to a cursor member (save writes A[0..N)) is written wherever the cursor goes: in the "
+                         "building constructor no advance of N (N++, N += k) follows the previous advance without any store into A in between "
+                         "(element store, memcpy/strcpy into it, or a callee handed a pointer into it); decided in the definite form only")
+def r_cursorfill(db, rep):
+    from rules_serial import find_pairs, flat_items, is_dispatcher
+    pairs = []
+    for w, r in find_pairs(db):
+        if not w.rec or is_dispatcher(db, r) or w.file.startswith("libcds/"):
+            continue
+        try:
+            items = SeqBuilder(db, w, "w", nosubst=True).run()
+        except Exception:
+            continue
+        for it in flat_items(items):
+            if it.kind == "bytes" and not it.scalar and getattr(it, "ptr", None) is not None:
+                ap = access_path(w, it.ptr)
+                sz = symx.canon(it.size) if it.size is not None else ""
+                if ap and len(ap) == 2 and ap[0] == "this" and sz.startswith("F:this.") and sz.count(".") == 1 and "(" not in sz and " " not in sz:
+                    pairs.append((w.rec, ap[1], sz.split(".")[1]))
+    seen = set()
+    for rec, arr, cur in sorted(set(pairs)):
+        for c in db.methods_of(rec):
+            if not c.is_ctor or not c.body or c.cfg is None or (c.id, arr) in seen:
+                continue
+            seen.add((c.id, arr))
+            cfg = c.cfg
+            A, N = ("this", arr), ("this", cur)
+            advances = []
+            for lv, w in written_lvalues(c):
+                if access_path(c, lv) == N and (w["k"] == "UnaryOperator" and w["op"] == "++" or w.get("op") == "+="):
+                    advances.append(w)
+            if not advances:
+                continue
+            # stores into A
+            stores = []
+            for lv, w in written_lvalues(c):
+                s = strip(lv)
+                while s["k"] in ("ArraySubscriptExpr",) or (s["k"] == "UnaryOperator" and s["op"] == "*"):
+                    s = strip(s["base"] if s["k"] == "ArraySubscriptExpr" else s["sub"])
+                    if s["k"] == "BinaryOperator" and s["op"] == "+":
+                        s = strip(s["lhs"])
+                    while s["k"] in EXPLICIT_CASTS:
+                        s = strip(s["sub"])
+                if access_path(c, s) == A and strip(lv)["k"] != "MemberExpr":
+                    stores.append(w)
+            for n in c.calls():
+                for a in n.get("args", []):
+                    if any(x["k"] == "MemberExpr" and access_path(c, x) == A for x in walk(a)):
+                        if callee_name(n) in ("memcpy", "strcpy", "strncpy", "memset", "memmove") or n.get("pw") or n.get("f") in db.funcs:
+                            stores.append(n)
+            spos = [cfg.position(x) for x in stores if cfg.position(x) is not None]
+            apos = {id(w): cfg.position(w) for w in advances}
+            rep.visit(c)
+            rep.inst(c.loc, "%s: %d advances of %s, %d stores into %s" % (c.qn, len(advances), cur, len(stores), arr))
+            for w in advances:
+                rep.ob()
+                p = apos[id(w)]
+                if p is None:
+                    continue
+                # a store inside the advancing statement itself (N += encode(.., A + N)) counts
+                if any(any(y is x for y in walk(w)) for x in stores):
+                    continue
+                # an advance that itself stores (N += encode(.., &A[N])) leaves the byte at the new cursor written (the encoder's
+                # current, partly filled byte): it is not a start of an unwritten stretch
+                embedded = {id(w2) for w2 in advances if any(any(y is x for y in walk(w2)) for x in stores)}
+                # (the stretch from the function entry to the first advance is not judged: with no string at all the loops that
+                # store do not run, and an empty dictionary is not a supported input)
+                starts = [q for k2, q in apos.items() if q is not None and k2 != id(w) and k2 not in embedded]
+                bad = None
+                for st in starts:
+                    # definite form only: the previous advance dominates this one and no store at all can execute in between
+                    # (a may-path through loops and correlated branches would report encoders that keep a "current byte")
+                    if not cfg.dominates(st, p):
+                        continue
+                    if any(cfg.path_exists(st, [sp], avoid=[p]) and cfg.path_exists(sp, [p], avoid=[st]) for sp in spos):
+                        continue
+                    if any(q is not None and q not in (p, st) and cfg.path_exists(st, [q], avoid=[p]) and cfg.path_exists(q, [p], avoid=[st]) for q in apos.values()):
+                        continue
+                    bad = st
+                    break
+                if bad is not None:
+                    rep.viol("%s#%s-advanced-without-store" % (c.qn, cur), c.nloc(w),
+                             "%s advances %s at line %s although nothing can have been stored into %s since the previous advance: "
+                             "%s::save writes %s[0..%s), so that byte reaches the image holding whatever the allocator returned" % (
+                                 c.qn, cur, w.get("l"), arr, rec, arr, cur), c.qn)
